@@ -11,16 +11,33 @@ import (
 
 // call dispatches builtins, library models, contracts and inlined package-local functions.
 func (e *Engine) call(st *State, fr *Frame, c *ssa.Call) []Outcome {
-	cc := &c.Call
+	return e.callCC(st, fr, &c.Call, nil)
+}
+
+// callCC performs a call (also used for deferred calls, whose function value and arguments were evaluated at the
+// defer statement and are passed in pre).
+func (e *Engine) callCC(st *State, fr *Frame, cc *ssa.CallCommon, pre *deferred) []Outcome {
 	args := make([]Val, len(cc.Args))
-	for k, a := range cc.Args {
-		args[k] = e.get(st, fr, a)
+	var fnVal Val
+	if pre != nil {
+		args, fnVal = pre.args, pre.fn
+	} else {
+		for k, a := range cc.Args {
+			args[k] = e.get(st, fr, a)
+		}
+		if needsFnVal(cc) {
+			fnVal = e.get(st, fr, cc.Value)
+		}
+	}
+	if fv, ok := fnVal.(FuncV); ok && !cc.IsInvoke() {
+		// a closure (also when it is called where it is made): its body runs against the captured cells
+		e.pendingParent = fr
+		return e.execFunc(st, fv.Fn, args, fv.Bind, fr.depth+1)
 	}
 	one := func(v ...Val) []Outcome { return []Outcome{{st: st, ret: v}} }
 
 	if cc.IsInvoke() {
-		recv := e.get(st, fr, cc.Value)
-		return e.invoke(st, fr, recv, cc.Method.Name(), args, c)
+		return e.invoke(st, fr, fnVal, cc.Method.Name(), args, cc)
 	}
 	if b, ok := cc.Value.(*ssa.Builtin); ok {
 		switch b.Name() {
@@ -34,9 +51,15 @@ func (e *Engine) call(st *State, fr *Frame, c *ssa.Call) []Outcome {
 				return one(BVu(uint64(len(x.E)), 64))
 			}
 		case "cap":
-			if x, ok := args[0].(SliceV); ok {
+			switch x := args[0].(type) {
+			case SliceV:
+				return one(x.Cap)
+			case ChanV:
 				return one(x.Cap)
 			}
+		case "close":
+			e.chanEvent(st, fr, "close", cc.Args[0], nil)
+			return one()
 		case "copy":
 			return one(e.doCopy(st, args[0].(SliceV), args[1].(SliceV)))
 		case "append":
@@ -50,20 +73,20 @@ func (e *Engine) call(st *State, fr *Frame, c *ssa.Call) []Outcome {
 	}
 	callee := cc.StaticCallee()
 	if callee == nil {
-		switch fv := e.get(st, fr, cc.Value).(type) {
+		switch fv := fnVal.(type) {
 		case FuncV:
 			e.pendingParent = fr
 			return e.execFunc(st, fv.Fn, args, fv.Bind, fr.depth+1)
 		case FuncSym:
-			return e.callback(st, fr, fv, args, c)
+			return e.callback(st, fr, fv, args, cc)
 		}
-		fail("dynamic call %s", c)
+		fail("dynamic call %s", cc)
 	}
-	return e.callFn(st, fr, callee, args, c)
+	return e.callFn(st, fr, callee, args, cc)
 }
 
 // callFn dispatches a call whose callee is known: library model, observer, contract, or inlining.
-func (e *Engine) callFn(st *State, fr *Frame, callee *ssa.Function, args []Val, c *ssa.Call) []Outcome {
+func (e *Engine) callFn(st *State, fr *Frame, callee *ssa.Function, args []Val, c *ssa.CallCommon) []Outcome {
 	one := func(v ...Val) []Outcome { return []Outcome{{st: st, ret: v}} }
 	name := callee.String()
 	if outs, ok := e.libCall(st, fr, name, args, c); ok {
@@ -87,8 +110,22 @@ func (e *Engine) callFn(st *State, fr *Frame, callee *ssa.Function, args []Val, 
 		e.nonNilUnlessError(st, ret)
 		return one(ret...)
 	}
-	if !st.spec && callee != e.unitFn && callee.Pkg != nil && (e.findContract(callee, "requires") != nil || len(e.findContracts(callee, "ensures")) > 0) {
-		return e.applyContract(st, fr, callee, args)
+	if !st.spec && callee != e.unitFn && callee.Pkg != nil {
+		if hook := e.note(callee.Pkg.Func("vc_hook_call_" + contractStem(callee))); hook != nil {
+			// call-trace hook: records the call in ghost state
+			e.pendingParent = fr
+			hs := e.execFunc(st, hook, args, nil, fr.depth+1)
+			if len(hs) != 1 {
+				fail("hook %s must be straight-line", hook.Name())
+			}
+			st = hs[0].st
+		}
+		if e.findContract(callee, "requires") != nil || len(e.findContracts(callee, "ensures")) > 0 || callee.Pkg.Func("vc_"+contractStem(callee)+"_trusted") != nil {
+			if callee.Pkg.Func("vc_"+contractStem(callee)+"_trusted") != nil {
+				e.warn("trusted contract (assumed, body not verified): %s", callee.Name())
+			}
+			return e.applyContract(st, fr, callee, args)
+		}
 	}
 	if callee.Pkg != nil && e.pkgs[callee.Pkg.Pkg.Path()] != nil || strings.Contains(name, "vspec") {
 		if e.havoc[name] || e.havoc[callee.Name()] || e.havoc[contractStem(callee)] {
@@ -112,11 +149,11 @@ func (e *Engine) callFn(st *State, fr *Frame, callee *ssa.Function, args []Val, 
 	return nil
 }
 
-func (e *Engine) invoke(st *State, fr *Frame, recv Val, method string, args []Val, c *ssa.Call) []Outcome {
+func (e *Engine) invoke(st *State, fr *Frame, recv Val, method string, args []Val, c *ssa.CallCommon) []Outcome {
 	if is, ok := recv.(IfaceSym); ok {
 		// interface-method contract: a pure observer of the receiver (uninterpreted in the receiver identity and scalar arguments)
 		ts := []*Term{is.ID}
-		sig0 := c.Call.Signature()
+		sig0 := c.Signature()
 		if sig0.Results().Len() > 0 {
 			for _, a := range args {
 				ts = append(ts, flattenVal(a)...)
@@ -126,12 +163,32 @@ func (e *Engine) invoke(st *State, fr *Frame, recv Val, method string, args []Va
 			e.oblige(st, "safe:nil-iface", Not(Eq(is.ID, BVu(0, 64))), "method call on nil interface "+typeName(is.T))
 			st.assumeT(Not(Eq(is.ID, BVu(0, 64))))
 		}
-		sig := c.Call.Signature()
+		sig := c.Signature()
 		var ret []Val
+		iname := ifaceStem(is.T) + "_" + method
+		pkg := e.unitFn.Pkg
+		if hook := e.note(pkg.Func("vc_hook_iface_" + iname)); hook != nil && !st.spec {
+			// call-trace contract: the hook records the call in ghost state (its parameters: the call's arguments)
+			e.pendingParent = fr
+			hs := e.execFunc(st, hook, args, nil, fr.depth+1)
+			if len(hs) != 1 {
+				fail("hook %s must be straight-line", hook.Name())
+			}
+			st = hs[0].st
+		}
+		impure := e.note(pkg.Func("vc_iface_"+iname+"_fresh")) != nil // each call yields new results (ReadPacket)
 		for k := 0; k < sig.Results().Len(); k++ {
-			ret = append(ret, e.ufVal(st, sig.Results().At(k).Type(), fmt.Sprintf("ifc_%s_%s_%d_a%d", typeName(is.T), method, k, len(ts)), ts))
+			if impure {
+				ret = append(ret, st.freshVal(sig.Results().At(k).Type(), "ifc_"+method))
+			} else {
+				ret = append(ret, e.ufVal(st, sig.Results().At(k).Type(), fmt.Sprintf("ifc_%s_%s_%d_a%d", typeName(is.T), method, k, len(ts)), ts))
+			}
 		}
 		e.nonNilUnlessError(st, ret)
+		if ens := e.note(pkg.Func("vc_iface_" + iname + "_ensures")); ens != nil && !st.spec {
+			// assumed contract of an environment / dependency method
+			st.assumeT(e.evalContract(st, ens, append(append([]Val{}, args...), ret...), true))
+		}
 		return []Outcome{{st: st, ret: ret}}
 	}
 	iv, ok := recv.(IfaceV)
@@ -278,7 +335,7 @@ func (e *Engine) sliceOfText(st *State, ps []Piece, str bool) SliceV {
 	return s
 }
 
-func (e *Engine) libCall(st *State, fr *Frame, name string, args []Val, c *ssa.Call) ([]Outcome, bool) {
+func (e *Engine) libCall(st *State, fr *Frame, name string, args []Val, c *ssa.CallCommon) ([]Outcome, bool) {
 	one := func(v ...Val) ([]Outcome, bool) { return []Outcome{{st: st, ret: v}}, true }
 	switch name {
 	case "(encoding/binary.littleEndian).Uint16", "(encoding/binary.littleEndian).Uint32", "(encoding/binary.littleEndian).Uint64",
@@ -381,8 +438,35 @@ func (e *Engine) libCall(st *State, fr *Frame, name string, args []Val, c *ssa.C
 		j := BoundVar(fresh("j"), 64)
 		st.assumeT(Forall(j, Implies(And(SLe(k, j), SLt(j, s.Len)), Eq(Select(st.arrOf(s.Base), Add(s.Off, j), 8), cb))))
 		return one(SliceV{Base: s.Base, Off: s.Off, Len: k, Cap: s.Cap, Elem: s.Elem})
+	case "(*sync.Once).Do":
+		// library contract: the function runs on the first Do of this Once object and never again
+		key := fmt.Sprintf("once|%v", args[0])
+		if p, ok := args[0].(PtrHeap); ok {
+			key = "once|" + p.Ref.String() + fmt.Sprint(p.Path)
+		}
+		if st.onceDone[key] {
+			return one()
+		}
+		if st.onceDone == nil {
+			st.onceDone = map[string]bool{}
+		}
+		st.onceDone[key] = true
+		if fv, ok := args[1].(FuncV); ok {
+			e.pendingParent = fr
+			outs := e.execFunc(st, fv.Fn, nil, fv.Bind, fr.depth+1)
+			return outs, true
+		}
+		fail("sync.Once.Do of a function value that is not a literal")
 	case "time.Unix":
 		return one(TimeV{Sec: asTerm(args[0])})
+	case "context.WithCancel":
+		// library contract: a derived context and its cancel function (a call through it is reported to the
+		// contract file as callback "cancel")
+		pc, _ := args[0].(IfaceSym)
+		DeclareUF("ctxChild", []string{"I64"}, "I64")
+		child := IfaceSym{ID: UF("ctxChild", 64, pc.ID), T: pc.T}
+		st.assumeT(Not(Eq(child.ID, BVu(0, 64))))
+		return one(child, FuncSym{ID: Sym(fresh("cancelfn"), 64), Name: "cancel"})
 	case "time.Now":
 		return one(TimeV{Sec: Sym(fresh("now"), 64)})
 	case "(time.Time).UTC":
@@ -670,6 +754,26 @@ func (e *Engine) applyContract(st *State, fr *Frame, callee *ssa.Function, args 
 	}
 	res := callee.Signature.Results()
 	st.cut = true
+	if mg := e.note(callee.Pkg.Func("vc_" + contractStem(callee) + "_modifies_ghost")); mg != nil {
+		// the ghost variables the callee (through its hooks) may change: havocked, then constrained by its ensures
+		for _, b := range mg.Blocks {
+			for _, ins := range b.Instrs {
+				if sto, ok := ins.(*ssa.Store); ok {
+					if g, ok := sto.Addr.(*ssa.Global); ok && strings.HasPrefix(g.Name(), "vc") {
+						et := g.Type().Underlying().(*types.Pointer).Elem()
+						v := st.freshVal(et, "ghost_"+g.Name())
+						if id, ok := st.globals[g.String()]; ok {
+							st.cells[id] = v
+						} else {
+							id := st.newCell(v)
+							cellTypes[id] = et
+							st.globals[g.String()] = id
+						}
+					}
+				}
+			}
+		}
+	}
 	var ret []Val
 	for k := 0; k < res.Len(); k++ {
 		// results are not known to be pre-existing memory
@@ -678,8 +782,15 @@ func (e *Engine) applyContract(st *State, fr *Frame, callee *ssa.Function, args 
 		st.noPre = false
 		ret = append(ret, v)
 	}
-	cargs := append(append([]Val{}, args...), ret...)
+	cargs0 := append(append([]Val{}, args...), ret...)
 	for _, ens := range e.findContracts(callee, "ensures") {
+		cargs := cargs0
+		// clause parameters that name locals of the callee are existentially quantified here: fresh values
+		for _, p := range ens.Params[min(len(cargs0), len(ens.Params)):] {
+			st.noPre = true
+			cargs = append(append([]Val{}, cargs...), st.freshVal(p.Type(), "ex_"+p.Name()))
+			st.noPre = false
+		}
 		a := e.evalContract(st, ens, cargs, true)
 		st.assumeT(a)
 	}
@@ -718,19 +829,19 @@ func flattenVal(v Val) []*Term {
 // callback contract vc_callback_<field>_requires is an obligation at the call site, the result is unconstrained;
 // if it is an error the path is split on nil-ness and the hook vc_hook_callback_ok_<field> runs on the nil branch.
 // Contract and hook parameters beyond the callback's own arguments are bound by name in the dynamic frame chain.
-func (e *Engine) callback(st *State, fr *Frame, fv FuncSym, args []Val, c *ssa.Call) []Outcome {
-	sig := c.Call.Signature()
-	if sig.Results().Len() != 1 || !isError(sig.Results().At(0).Type()) {
-		fail("callback with unsupported signature")
-	}
-	field := fieldNameOf(c.Call.Value)
+func (e *Engine) callback(st *State, fr *Frame, fv FuncSym, args []Val, c *ssa.CallCommon) []Outcome {
+	sig := c.Signature()
+	field := fieldNameOf(c.Value)
 	if field == "" {
-		fail("call through a function value that is not a struct field")
+		field = chanName(c.Value) // a parameter or a local variable holding the function
+	}
+	if field == "" || field == "chan" {
+		fail("call through a function value that cannot be named")
 	}
 	pkg := e.unitFn.Pkg
 	bind := func(f *ssa.Function, s *State) []Val {
 		out := append([]Val{}, args...)
-		for _, p := range f.Params[len(args):] {
+		for _, p := range f.Params[min(len(args), len(f.Params)):] {
 			v, ok := e.lookupName(s, fr, p.Name())
 			if !ok {
 				fail("%s: no variable named %s in scope at the callback", f.Name(), p.Name())
@@ -743,23 +854,47 @@ func (e *Engine) callback(st *State, fr *Frame, fv FuncSym, args []Val, c *ssa.C
 		g := e.evalContract(st, req, bind(req, st), false)
 		e.oblige(st, "callback-pre:"+field, g, req.Name())
 	}
+	runHook := func(s *State, name string) *State {
+		if hook := e.note(pkg.Func(name)); hook != nil {
+			e.pendingParent = fr
+			hs := e.execFunc(s, hook, bind(hook, s), nil, fr.depth+1)
+			if len(hs) != 1 {
+				fail("hook %s must be straight-line", hook.Name())
+			}
+			return hs[0].st
+		}
+		return s
+	}
+	n := sig.Results().Len()
+	fresh := func(s *State) []Val {
+		var ret []Val
+		for k := 0; k < n; k++ {
+			s.noPre = true
+			ret = append(ret, s.freshVal(sig.Results().At(k).Type(), "cb_"+field))
+			s.noPre = false
+		}
+		return ret
+	}
+	if n == 0 || !isError(sig.Results().At(n-1).Type()) {
+		st2 := runHook(st.clone(), "vc_hook_callback_ok_"+field)
+		return []Outcome{{st: st2, ret: fresh(st2)}}
+	}
 	var outs []Outcome
 	// failure branch
 	st1 := st.clone()
-	outs = append(outs, Outcome{st: st1, ret: []Val{ErrV{NonNil: tTrue, ID: Sym(fresh("cberr"), 64)}}})
+	r1 := fresh(st1)
+	r1[n-1] = ErrV{NonNil: tTrue, ID: Sym(fresh2("cberr"), 64)}
+	outs = append(outs, Outcome{st: st1, ret: r1})
 	// success branch: run the hook
-	st2 := st.clone()
-	if hook := e.note(pkg.Func("vc_hook_callback_ok_" + field)); hook != nil {
-		e.pendingParent = fr
-		hs := e.execFunc(st2, hook, bind(hook, st2), nil, fr.depth+1)
-		if len(hs) != 1 {
-			fail("hook %s must be straight-line", hook.Name())
-		}
-		st2 = hs[0].st
-	}
-	outs = append(outs, Outcome{st: st2, ret: []Val{ErrV{NonNil: tFalse, ID: BVu(0, 64)}}})
+	st2 := runHook(st.clone(), "vc_hook_callback_ok_"+field)
+	r2 := fresh(st2)
+	r2[n-1] = ErrV{NonNil: tFalse, ID: BVu(0, 64)}
+	e.nonNilUnlessError(st2, r2)
+	outs = append(outs, Outcome{st: st2, ret: r2})
 	return outs
 }
+
+func fresh2(p string) string { return fresh(p) }
 
 // fieldNameOf: the struct field a function value was loaded from.
 func fieldNameOf(v ssa.Value) string {
@@ -822,4 +957,99 @@ func (e *Engine) nonNilUnlessError(st *State, ret []Val) {
 			st.assumeT(Implies(errNil, Not(Eq(x.ID, zero))))
 		}
 	}
+}
+
+
+func ifaceStem(t types.Type) string {
+	n := typeName(t)
+	if i := strings.LastIndex(n, "."); i >= 0 {
+		n = n[i+1:]
+	}
+	return n
+}
+
+// chanName: the source name of a channel operand (local variable, captured variable or struct field).
+func chanName(v ssa.Value) string {
+	switch x := v.(type) {
+	case *ssa.UnOp:
+		switch a := x.X.(type) {
+		case *ssa.Alloc:
+			return a.Comment
+		case *ssa.FreeVar:
+			return a.Name()
+		case *ssa.FieldAddr:
+			if pt, ok := a.X.Type().Underlying().(*types.Pointer); ok {
+				if st, ok := pt.Elem().Underlying().(*types.Struct); ok {
+					return st.Field(a.Field).Name()
+				}
+			}
+		}
+	case *ssa.Parameter:
+		return x.Name()
+	case *ssa.Call:
+		if x.Call.IsInvoke() {
+			return x.Call.Method.Name() // e.g. ctx.Done()
+		}
+	case *ssa.ChangeType:
+		return chanName(x.X)
+	}
+	return "chan"
+}
+
+// chanEvent: a channel operation of kind send / close / recv on the channel named by operand. The contract file may
+// provide vc_chan_<kind>_ok_<name>() bool — an obligation at the operation (a plain send or receive without one is
+// reported: it may block forever) — and vc_hook_chan_<kind>_<name>(value), which advances ghost state.
+func (e *Engine) chanEvent(st *State, fr *Frame, kind string, operand ssa.Value, val Val) {
+	if st.spec {
+		return
+	}
+	name := chanName(operand)
+	pkg := e.unitFn.Pkg
+	okf := e.note(pkg.Func("vc_chan_" + kind + "_ok_" + name))
+	if okf != nil {
+		var args []Val
+		for _, p := range okf.Params {
+			v, ok := e.lookupName(st, fr, p.Name())
+			if !ok {
+				fail("%s: no variable named %s", okf.Name(), p.Name())
+			}
+			args = append(args, v)
+		}
+		e.oblige(st, "safe:chan-"+kind+":"+name, e.evalContract(st, okf, args, false), okf.Name())
+	} else if kind != "select-send" && kind != "select-recv" {
+		e.oblige(st, "safe:chan-"+kind+":"+name, tFalse, "channel "+kind+" on "+name+" without a contract (vc_chan_"+kind+"_ok_"+name+"): it may block or panic")
+	}
+	hk := strings.TrimPrefix(kind, "select-")
+	if hook := e.note(pkg.Func("vc_hook_chan_" + hk + "_" + name)); hook != nil {
+		var args []Val
+		for i, p := range hook.Params {
+			if i == 0 && val != nil {
+				args = append(args, val)
+				continue
+			}
+			v, ok := e.lookupName(st, fr, p.Name())
+			if !ok {
+				fail("%s: no variable named %s", hook.Name(), p.Name())
+			}
+			args = append(args, v)
+		}
+		e.pendingParent = fr
+		hs := e.execFunc(st, hook, args, nil, fr.depth+1)
+		if len(hs) != 1 {
+			fail("hook %s must be straight-line", hook.Name())
+		}
+		*st = *hs[0].st
+	}
+}
+
+
+// needsFnVal: the callee is a run-time value (interface receiver, function value, closure).
+func needsFnVal(cc *ssa.CallCommon) bool {
+	if _, isB := cc.Value.(*ssa.Builtin); isB {
+		return false
+	}
+	if _, isMC := cc.Value.(*ssa.MakeClosure); isMC {
+		return true
+	}
+	return cc.IsInvoke() || cc.StaticCallee() == nil
 }
